@@ -132,6 +132,7 @@ func CheckExec(props map[string]bool, s Scenario, o Outcome) []Finding {
 	if o.Panic != "" || o.BuildErr != "" {
 		return fs
 	}
+	checkAffinity(s, o, add)
 	f := analyse(s)
 	// C02
 	if !f.allW {
